@@ -7,6 +7,7 @@ import (
 	"math/rand"
 	"strings"
 	"sync"
+	"sync/atomic"
 	"time"
 
 	"github.com/evergreen-ci/birch"
@@ -25,9 +26,22 @@ type opsCollector struct {
 	mu   sync.Mutex
 	ops  []int64
 	fail bool
+
+	slow       time.Duration // every Add takes this long (opens the window between a flush and its completion)
+	inflight   int32
+	concurrent int32 // number of Add calls that overlapped another one
+	closed     bool  // set by the harness while no test cycle is open (after EndTest has returned)
+	late       int   // Add calls that completed while closed
 }
 
 func (c *opsCollector) Add(in interface{}) error {
+	if atomic.AddInt32(&c.inflight, 1) > 1 {
+		atomic.AddInt32(&c.concurrent, 1)
+	}
+	defer atomic.AddInt32(&c.inflight, -1)
+	if c.slow > 0 {
+		time.Sleep(c.slow)
+	}
 	var b []byte
 	switch v := in.(type) {
 	case birch.DocumentMarshaler:
@@ -57,6 +71,9 @@ func (c *opsCollector) Add(in interface{}) error {
 	}
 	c.mu.Lock()
 	c.ops = append(c.ops, val)
+	if c.closed {
+		c.late++
+	}
 	c.mu.Unlock()
 	return nil
 }
@@ -81,6 +98,9 @@ func cmdSchedRec(o *Out, line string, f []string) {
 		verifhook.Perturb(seed, 30)
 	}
 	coll := &opsCollector{}
+	if len(f) > 7 {
+		coll.slow = time.Duration(atoi64(f[7])) * time.Microsecond
+	}
 	ctx, cancel := context.WithCancel(context.Background())
 	var rec events.Recorder
 	switch kind {
@@ -94,7 +114,10 @@ func cmdSchedRec(o *Out, line string, f []string) {
 	var finals []string
 	var endErrs int
 	for c := 0; c < cycles; c++ {
+		coll.mu.Lock()
 		before := len(coll.ops)
+		coll.closed = false
+		coll.mu.Unlock()
 		rec.BeginIteration()
 		var wg sync.WaitGroup
 		for g := 0; g < G; g++ {
@@ -114,6 +137,10 @@ func cmdSchedRec(o *Out, line string, f []string) {
 			// let a tick arrive so that the flusher is between its tick and the mutex when EndTest runs
 			time.Sleep(time.Duration(tickUs)*time.Microsecond + 2*time.Millisecond)
 		}
+		if coll.slow > 0 {
+			// let a tick arrive and the flusher get into the (slow) collector before EndTest runs
+			time.Sleep(time.Duration(tickUs)*time.Microsecond + coll.slow/2)
+		}
 		rec.EndIteration(time.Millisecond)
 		if kind == "sync" {
 			// the raw recorder persists at EndIteration; EndTest persists again if a time stamp is set
@@ -122,8 +149,15 @@ func cmdSchedRec(o *Out, line string, f []string) {
 			endErrs++
 		}
 		coll.mu.Lock()
+		coll.closed = true
 		cyc := append([]int64{}, coll.ops[before:]...)
 		coll.mu.Unlock()
+		if coll.slow > 0 {
+			time.Sleep(2*coll.slow + time.Millisecond) // a flush that is still in flight completes now
+			coll.mu.Lock()
+			cyc = append([]int64{}, coll.ops[before:]...)
+			coll.mu.Unlock()
+		}
 		last := int64(-1)
 		mono := true
 		for i, v := range cyc {
@@ -140,6 +174,15 @@ func cmdSchedRec(o *Out, line string, f []string) {
 			o.violation(line, "finally persisted counter differs from the sum of all increments issued",
 				map[string]interface{}{"cycle": c, "persisted": last, "issued": G * M, "samples": len(cyc)})
 		}
+	}
+	coll.mu.Lock()
+	late := coll.late
+	coll.mu.Unlock()
+	if late > 0 {
+		o.violation(line, "a sample was handed to the collector after EndTest had returned (the flusher did not stop with the test)", map[string]int{"late_adds": late})
+	}
+	if n := atomic.LoadInt32(&coll.concurrent); n > 0 {
+		o.violation(line, "the recorder called its collector from two goroutines at once", map[string]int32{"overlapping_adds": n})
 	}
 	// more calls after the last EndTest must not block either
 	rec.IncOperations(1)
@@ -181,7 +224,14 @@ func streamSchedRec(o *Out, rng *rand.Rand, thorough bool, _ []string) {
 		case 1:
 			seed = 1 + rng.Int63n(1<<30)
 		}
-		lines = append(lines, fmt.Sprintf("sched-rec %s %d %d %d %d %d %d", kind, G, M, cycles, tick, stall, seed))
+		slow := 0
+		if rng.Intn(3) == 0 {
+			slow = []int{200, 1000, 3000}[rng.Intn(3)] // a slow collector: EndTest arrives while a flush is in progress
+			if M > 20 {
+				M = 20
+			}
+		}
+		lines = append(lines, fmt.Sprintf("sched-rec %s %d %d %d %d %d %d %d", kind, G, M, cycles, tick, stall, seed, slow))
 	}
 	runIsolated(o, lines, 20*time.Second)
 }
